@@ -81,6 +81,24 @@ def bps_term(bps):
     return L(("(" + term(Nat(int(p))) + ", " + term(bool(c == 0.0)) + ")" for p, _, c in bps), "nat * bool")
 
 
+def cut_decisions(sens, bps, obs):
+    """per-breakpoint decisions that reproduce the observed cuts (first-fit walk along the breakpoints)"""
+    decs, cuts, j = [], [], 0
+    for p, _, c in bps:
+        if cuts and cuts[-1] == p:
+            decs.append(False)
+            continue
+        if cuts and sens == 0:
+            break
+        if j < len(obs) and obs[j] == p:
+            decs.append(True)
+            cuts.append(p)
+            j += 1
+        else:
+            decs.append(False)
+    return L((term(bool(d)) for d in decs), "bool")
+
+
 def evaluate(name, checks, cases, shard=300):
     if not cases:
         return {k: [] for k in checks}
@@ -243,16 +261,18 @@ def check_permute(ctx, items, label):
 
 # ------------------------------------------------------------------------------------- D: aggregate and cuts
 AGG_CHECKS = {
-    "L1": ("fun c => let '(borders, blocks, ocols, obps, sens, cuts) := c in "
+    "L1": ("fun c => let '(borders, blocks, ocols, obps, sens, cuts, decs) := c in "
            "nondecN (map fst obps) && match obps with (O, true) :: _ => true | _ => false end && cuts_okb cuts"),
-    "L2": ("fun c => let '(borders, blocks, ocols, obps, sens, cuts) := c in "
+    "L2": ("fun c => let '(borders, blocks, ocols, obps, sens, cuts, decs) := c in "
            "let r := aggregate borders blocks in cols_eqb (fst r) ocols && "
            "list_eqb (fun a b => Nat.eqb (fst a) (fst b) && Bool.eqb (snd a) (snd b)) (snd r) obps && "
-           "cuts_in_envelope sens obps cuts"),
+           "cuts_replay sens decs obps cuts && cuts_in_envelope sens obps cuts"),
 }
 CUTS_CHECKS = {
-    "L1": "fun c : bool * nat * list bp * list nat => let '(wf, sens, bps, cuts) := c in if wf then cuts_okb cuts else true",
-    "L2": "fun c => let '(wf, sens, bps, cuts) := c in cuts_in_envelope sens bps cuts",
+    "L1": ("fun c : bool * nat * list bp * list nat * list bool => let '(wf, sens, bps, cuts, decs) := c in "
+           "if wf then cuts_okb cuts else true"),
+    "L2": ("fun c : bool * nat * list bp * list nat * list bool => let '(wf, sens, bps, cuts, decs) := c in "
+           "cuts_replay sens decs bps cuts && (if wf then cuts_in_envelope sens bps cuts else true)"),
 }
 
 
@@ -266,7 +286,8 @@ def check_aggregate(ctx, items, label):
         n = len(res["haps"][0]) if res["haps"] else 0
         ocols = G.transpose(res["haps"], n)
         cases.append("(" + ", ".join([nlist(case["borders"] or []), blocks, zcols(ocols), bps_term(res["bps"]),
-                                      term(Nat(case["sens"])), nlist(res["cuts"])]) + ")")
+                                      term(Nat(case["sens"])), nlist(res["cuts"]),
+                                      cut_decisions(case["sens"], res["bps"], res["cuts"])]) + ")")
         raw.append((case, res, rep))
         ctx.count(("aggregate", json.dumps(case, sort_keys=True)), nontrivial=len(case["blocks"]) >= 2 or len(res["cuts"]) >= 2)
         ctx.tally(f"aggregate.{label}")
@@ -287,7 +308,8 @@ def check_cuts(ctx, items, label):
     """items: (wellformed, sens, bps, cuts, replay)"""
     cases, raw = [], []
     for wf, sens, bps, cuts, rep in items:
-        cases.append("(" + ", ".join([term(bool(wf)), term(Nat(sens)), bps_term(bps), nlist(cuts)]) + ")")
+        cases.append("(" + ", ".join([term(bool(wf)), term(Nat(sens)), bps_term(bps), nlist(cuts),
+                                      cut_decisions(sens, bps, cuts)]) + ")")
         raw.append((wf, sens, bps, cuts, rep))
         ctx.count(("cuts", sens, json.dumps(bps)), nontrivial=len(bps) >= 2)
         ctx.tally(f"cuts.{label}")
